@@ -186,6 +186,10 @@ func workload(c *Case, obs eventbus.Observability, ctxCheck func(ctx context.Con
 				return storekit.Action{Block: true}
 			}
 			if op == "append" && reject[n] && !nestedAppend(seq) {
+				if n%3 == 2 {
+					// the store's own deadline passed: a failed append like any other
+					return storekit.Action{Err: fmt.Errorf("store: write timed out: %w (%w)", storekit.ErrInjected, context.DeadlineExceeded)}
+				}
 				return storekit.Action{Err: storekit.ErrInjected}
 			}
 			if op == "append" && slow[n] {
